@@ -369,7 +369,26 @@ static void run_case(char* line) {
 #else
   long acode = -1;
 #endif
-  P("T=%s A=%ld R=%d", name_of_type(et), acode, registered);
+  /* what the container / view itself declares about the objects it hands out: iter_type, key_type, val_type */
+  int declared = -1;
+  exn = NULL;
+  try {
+    var dt = NULL;
+    if (!strcmp(pk, "get")) dt = (!strncmp(pa, "Array", 5) || !strncmp(pa, "List", 4)) ? iter_type(cont) : val_type(cont);
+    else if (!strcmp(pk, "iter") || !strcmp(pk, "last") || !strcmp(pk, "next") || !strcmp(pk, "prev") || !strcmp(pk, "map")) {
+      dt = iter_type(cont);
+      if ((!strncmp(pa, "Table", 5) || !strncmp(pa, "Tree", 4)) && dt isnt key_type(cont)) dt = NULL;
+    }
+    else if (!strcmp(pk, "slice")) dt = iter_type(v_slice);
+    else if (!strcmp(pk, "filter")) dt = iter_type(v_filter);
+    else if (!strcmp(pk, "range_stack")) dt = iter_type(v_range);
+    else if (!strcmp(pk, "zip_stack")) dt = iter_type(v_zip);
+    else if (!strcmp(pk, "range_heap") || !strcmp(pk, "zip_heap")) dt = iter_type(keep1);
+    else dt = et;
+    declared = (dt is et);
+  } catch (ex) { exn = ex; }
+  if (exn) declared = 0;
+  P("T=%s A=%ld R=%d D=%d", name_of_type(et), acode, registered, declared);
   fflush(OUT);
   track(e);
   int use = usable(e);
